@@ -47,7 +47,33 @@ func (p *ResetProcessor) UnmarshalYAML(value *yaml.Node) error {
 		// `!reset` on the document root: nothing left to decode
 		return nil
 	}
+	// resolveReset replaces aliases by their targets but does not descend into `!override` nodes: an alias to such a
+	// node from inside its own content becomes a direct pointer and the tree handed to the decoder is cyclic
+	if err := checkAcyclic(resolved, map[*yaml.Node]bool{}); err != nil {
+		return err
+	}
 	return resolved.Decode(p.target)
+}
+
+// checkAcyclic reports a node that is reachable from itself through content or alias pointers
+func checkAcyclic(node *yaml.Node, onPath map[*yaml.Node]bool) error {
+	if node == nil {
+		return nil
+	}
+	if onPath[node] {
+		return fmt.Errorf("cycle detected: node at line %d contains itself", node.Line)
+	}
+	onPath[node] = true
+	defer delete(onPath, node)
+	if node.Kind == yaml.AliasNode {
+		return checkAcyclic(node.Alias, onPath)
+	}
+	for _, child := range node.Content {
+		if err := checkAcyclic(child, onPath); err != nil {
+			return err
+		}
+	}
+	return nil
 }
 
 // resolveReset detects `!reset` tag being set on yaml nodes and record position in the yaml tree
